@@ -5,11 +5,11 @@ from __future__ import annotations
 import json
 import re
 
-from common import NCPU, MachineryError, drive, run_parallel, tlc
+from common import NCPU, NSHARDS, shard_hashseed, MachineryError, drive, run_parallel, tlc
 
 
 def validate(wd, items: list[dict], tag="idl") -> dict:
-    shards = [items[i::NCPU] for i in range(NCPU)]
+    shards = [items[i::NSHARDS] for i in range(NSHARDS)]
     jobs = []
     for i, sh in enumerate(shards):
         if sh:
@@ -21,7 +21,7 @@ def validate(wd, items: list[dict], tag="idl") -> dict:
 
     def one(job):
         i, f, trf = job
-        drive("drive_idtrace.py", [str(f), str(trf)])
+        drive("drive_idtrace.py", [str(f), str(trf)], hashseed=shard_hashseed(i))
         traces = json.loads(trf.read_text())
         if not traces:
             return [], set(), {"generated": 0, "distinct": 0}, 0
